@@ -1,3 +1,4 @@
 import ArroyProofs.AuditCmd
 import ArroyProofs.Properties.C12
+import ArroyProofs.Properties.C12Mono
 #audit Arroy.C12
